@@ -27,7 +27,8 @@ ASTs        B and|or <n> … | 1 not|usub|uadd|invert <a> | 2 bitand|bitor|x:<Ty
                                      of the two) | `differ …` | `err <Class>` | `none`
   exec <names> <k> (E <ast> | S <Type>){k}
                                  ->  `err <Class>` | per leaf of the parsed query `ok <leaf>`/`err <Class>`, joined by ` ; `
-                                     ## the same with names substituted at any depth also in range bounds
+                                     ## the same with names substituted at any depth also in range bounds,
+                                        or `reject` when the parsed object is not a query tree over values
   resolve <names> <k> (…){k}     ->  `ok <obj>`: the parsed query with every leaf resolved | `err <Class>`
   names = nonames | <k> (<hex> <obj>){k}
 -/
@@ -557,10 +558,11 @@ def step (st : St) (toks : List String) : St × String :=
         | .ok w =>
           if w.isQuery then
             let m := " ; ".intercalate ((leaves w).map (fun l => showRes (resolveLeaf names l)))
-            match names with
-            | some _ => (st, m ++ " ## " ++ " ; ".intercalate ((leaves w).map (fun l => showRes (resolveLeafDeep names l))))
-            | none => (st, m)
-          else (st, "notquery")
+            match unembed w with
+            | none => (st, m ++ " ## reject")          -- not a query tree over values (D11)
+            | some _ =>
+              (st, m ++ " ## " ++ " ; ".intercalate ((leaves w).map (fun l => showRes (resolveLeafDeep names l))))
+          else (st, "notquery ## reject")
       | _ => (st, "bad-op")
     | none => (st, "bad-op")
   | "resolve" :: rest =>
@@ -570,7 +572,10 @@ def step (st : St) (toks : List String) : St × String :=
       | some (body, []) =>
         match parse st.cat body with
         | .error e => (st, showErr e)
-        | .ok w => if w.isQuery then (st, showRes (resolveAll names w)) else (st, "notquery")
+        | .ok w =>
+          if w.isQuery then
+            (st, showRes (resolveAll names w) ++ (if (unembed w).isNone then " ## reject" else ""))
+          else (st, "notquery ## reject")
       | _ => (st, "bad-op")
     | none => (st, "bad-op")
   | "rt" :: rest =>
